@@ -108,7 +108,9 @@ def obligations(ctx):
                         annotations=list(annotations) + [what])
         ctx.violation = violation
     ctx.trusted_base.append(NOTE % (ctx.prop, ", ".join(o["name"].split(".")[-1] for o in tie)))
-    return failed + named + others
+    # the violation text names the theorems that failed by themselves; the ones that merely went unaudited with
+    # them stay `ok: false` in the evidence (they were not checked in this run) but are not called broken
+    return failed + (named or others)
 
 
 def restore(ctx):
